@@ -38,6 +38,24 @@ static const char* typeName(int t) { static const char* n[] = {"sphere", "cylind
 
 struct BodyKin { Vec3 x, w, v; };
 
+// identity of the case being generated (goes into every I record so that --mode replay can rebuild and RE-RUN it)
+static long long gSeed = 1, gCase = 0;
+// floors (X1): how many cases reach the result predicates
+static long gSpanTotal[2] = {0, 0}, gSpanConv[2] = {0, 0}, gSpanContact = 0, gSpanObstCases = 0, gSurfTotal = 0, gSurfConv = 0, gFdTotal = 0, gFdDone = 0;
+
+// penetration depth (>0 = inside) of the open straight segment a->b into a convex quadric obstacle, closed form:
+// in coordinates scaled so that the surface is the unit sphere / unit circle the squared distance along the segment is a
+// quadratic in the parameter; its minimum over [0,1] is attained at the clamped vertex.
+static double segPenetrationConvex(int type, const Vec3& dims, const Vec3& a, const Vec3& b) {
+    Vec3 sc = type == 0 ? Vec3(dims[0]) : type == 1 ? Vec3(dims[0], dims[0], 1) : dims;
+    Vec3 A(a[0] / sc[0], a[1] / sc[1], type == 1 ? 0.0 : a[2] / sc[2]), B(b[0] / sc[0], b[1] / sc[1], type == 1 ? 0.0 : b[2] / sc[2]);
+    Vec3 d = B - A; double dd = ~d * d;
+    double t = dd > 0 ? -(~A * d) / dd : 0.0; t = std::min(1.0, std::max(0.0, t));
+    double m = (A + t * d).norm();                 // min of the scaled radius along the segment (1 = on the surface)
+    double rmin = std::min(sc[0], std::min(sc[1], type == 1 ? sc[0] : sc[2]));
+    return (1 - m) * rmin;                         // conservative conversion back to a length
+}
+
 static int spanCase(vh::Rng& g, int caseNo, bool thorough) {
     MultibodySystem system; SimbodyMatterSubsystem matter(system); CableSubsystem cables(system);
     Body::Rigid body(MassProperties(1.0, Vec3(0), Inertia(1)));
@@ -110,21 +128,26 @@ static int spanCase(vh::Rng& g, int caseNo, bool thorough) {
         system.realize(s, Stage::Velocity);
         double L = cable.calcLength(s);
         bool conv = cable.getSmoothness(s) <= cable.getSmoothnessTolerance() && cable.getNumSolverIterations(s) < cable.getSolverMaxIterations() && std::isfinite(L);
+        gSpanTotal[minLen ? 1 : 0]++;
         if (!conv) { vh::D("span." + algTag + ".notConverged"); return 0; }
+        gSpanConv[minLen ? 1 : 0]++;
         double Ldot = cable.calcLengthDot(s);
         const double T = g.range(0.5, 20);
         auto kin = [&](int b) { BodyKin k; k.x = mob[b].getBodyOriginLocation(s); k.w = mob[b].getBodyAngularVelocity(s); k.v = mob[b].getBodyOriginVelocity(s); return k; };
         auto putKin = [&](vh::Line& l, int b) { BodyKin k = kin(b); putV(l, k.x); putV(l, k.w); putV(l, k.v); };
         // --- the I record + implementation outputs
-        vh::Line in = vh::I("span"); in.d(T);
+        vh::Line in = vh::I("span"); in.i(gSeed).i(gCase).d(T);
         std::vector<SpatialVec> unitF; SpatialVec uf;
         std::vector<Vec3> pathPts;           // consecutive end points of straight segments: Q0=O, P1,Q1, ... , T
+        std::vector<Vec3> pathTan;           // the cable tangent the implementation reports at each of those points
+        std::vector<std::string> pathWhat;   // what each point belongs to
+        std::vector<int> pathBody;           // body each point is fixed to
         std::vector<double> arcs; std::vector<std::pair<Vec3, Vec3> > chords;
         int nElem = 0; { CableSpanObstacleIndex oi(0); for (int k : itemKind) { if (k == 1) { if (cable.isInContactWithObstacle(s, oi)) ++nElem; ++oi; } else ++nElem; } }
         in.i(nElem);
         Vec3 Opt = mob[bO].findStationLocationInGround(s, cable.getOriginStation());
         putKin(in, bO); putV(in, Opt); putV(in, Vec3(cable.calcOriginTangentDirection(s)));
-        cable.calcOriginUnitForce(s, uf); unitF.push_back(uf); pathPts.push_back(Opt);
+        cable.calcOriginUnitForce(s, uf); unitF.push_back(uf); pathPts.push_back(Opt); pathTan.push_back(Vec3(cable.calcOriginTangentDirection(s))); pathWhat.push_back("origin"); pathBody.push_back(bO);
         std::string contactTag;
         { CableSpanObstacleIndex oi(0); CableSpanViaPointIndex vi(0); int on = 0, vn = 0;
           for (int k : itemKind) {
@@ -135,7 +158,7 @@ static int spanCase(vh::Rng& g, int caseNo, bool thorough) {
                     double arc = cable.calcCurveSegmentArcLength(s, oi);
                     in.i(1); putKin(in, o.body); putV(in, XP.p()); putV(in, XP.x()); putV(in, XQ.p()); putV(in, XQ.x()); in.d(arc);
                     cable.calcCurveSegmentUnitForce(s, oi, uf); unitF.push_back(uf);
-                    pathPts.push_back(XP.p()); pathPts.push_back(XQ.p()); arcs.push_back(arc); chords.push_back({XP.p(), XQ.p()});
+                    pathPts.push_back(XP.p()); pathPts.push_back(XQ.p()); pathTan.push_back(Vec3(XP.x())); pathTan.push_back(Vec3(XQ.x())); pathWhat.push_back(typeName(o.type)); pathWhat.push_back(typeName(o.type)); pathBody.push_back(o.body); pathBody.push_back(o.body); arcs.push_back(arc); chords.push_back({XP.p(), XQ.p()});
                     contactTag += "c";
                 } else contactTag += "-";
                 ++oi;
@@ -144,13 +167,13 @@ static int spanCase(vh::Rng& g, int caseNo, bool thorough) {
                 Vec3 p = cable.calcViaPointLocation(s, vi);
                 in.i(2); putKin(in, b); putV(in, p); putV(in, Vec3(cable.calcViaPointIncomingTangentDirection(s, vi))); putV(in, Vec3(cable.calcViaPointOutgoingTangentDirection(s, vi)));
                 cable.calcViaPointUnitForce(s, vi, uf); unitF.push_back(uf);
-                pathPts.push_back(p); pathPts.push_back(p);
+                pathPts.push_back(p); pathPts.push_back(p); pathTan.push_back(Vec3(cable.calcViaPointIncomingTangentDirection(s, vi))); pathTan.push_back(Vec3(cable.calcViaPointOutgoingTangentDirection(s, vi))); pathWhat.push_back("via"); pathWhat.push_back("via"); pathBody.push_back(b); pathBody.push_back(b);
                 ++vi;
             }
           } }
         Vec3 Tpt = mob[bT].findStationLocationInGround(s, cable.getTerminationStation());
         putKin(in, bT); putV(in, Tpt); putV(in, Vec3(cable.calcTerminationTangentDirection(s)));
-        cable.calcTerminationUnitForce(s, uf); unitF.push_back(uf); pathPts.push_back(Tpt);
+        cable.calcTerminationUnitForce(s, uf); unitF.push_back(uf); pathPts.push_back(Tpt); pathTan.push_back(Vec3(cable.calcTerminationTangentDirection(s))); pathWhat.push_back("termination"); pathBody.push_back(bT);
         in.emit();
         double power = cable.calcCablePower(s, T);
         Vector_<SpatialVec> bf(matter.getNumBodies(), SpatialVec(Vec3(0), Vec3(0)));
@@ -162,20 +185,29 @@ static int spanCase(vh::Rng& g, int caseNo, bool thorough) {
         putV(out, fsum / T); putV(out, msum / T);
         out.emit();
         vh::D("span." + algTag + ".items=" + (tag.empty() ? "none" : tag) );
+        if (std::count(contactTag.begin(), contactTag.end(), 'c') > 0) gSpanContact++;
         vh::D("span.contacts=" + std::to_string(std::count(contactTag.begin(), contactTag.end(), 'c')) + ".lifted=" + std::to_string(std::count(contactTag.begin(), contactTag.end(), '-')));
-        // a straight segment that arrives at / leaves a contact point against the curve tangent (a 180 degree cusp)
-        double minAlign = 1; std::string cuspAt;
-        { CableSpanObstacleIndex oi(0); int on = 0; size_t pi = 0;   // pathPts: O, then per element two points
-          for (int k : itemKind) { if (k == 1) { const Obst& o = obst[on++];
-                if (cable.isInContactWithObstacle(s, oi)) { Transform XP = cable.calcCurveSegmentInitialFrenetFrame(s, oi), XQ = cable.calcCurveSegmentFinalFrenetFrame(s, oi);
-                    Vec3 din = pathPts[pi + 1] - pathPts[pi], dout = pathPts[pi + 3] - pathPts[pi + 2];
-                    double a1 = ~Vec3(XP.x()) * din / din.norm(), a2 = ~Vec3(XQ.x()) * dout / dout.norm();
-                    if (std::min(a1, a2) < minAlign) { minAlign = std::min(a1, a2); cuspAt = typeName(o.type); }
-                    pi += 2; }
-                ++oi; } else pi += 2; } }
-        const bool cusp = minAlign < 0;
+        // tangent defects: at both ends of every straight segment the reported cable tangent should be the segment direction
+        // (that is what "smooth" means); minAlign = smallest cosine between the two, defSum = sum of |tangent - direction|
+        double minAlign = 1, defSum = 0, vmax = 0; std::string cuspAt = "none"; const int nSeg = (int)pathPts.size() / 2;
+        for (size_t i = 0; i + 1 < pathPts.size(); i += 2) { Vec3 d = pathPts[i + 1] - pathPts[i]; double len = d.norm(); if (!(len > 0)) continue; Vec3 e = d / len;
+            for (int side = 0; side < 2; ++side) { double al = ~pathTan[i + side] * e; defSum += (pathTan[i + side] - e).norm();
+                if (al < minAlign) { minAlign = al; cuspAt = pathWhat[i + side]; } } }
+        double armMax = 0;
+        for (size_t i = 0; i < pathPts.size(); ++i) { const MobilizedBody& mb = mob[pathBody[i]];
+            Vec3 v = mb.getBodyOriginVelocity(s) + mb.getBodyAngularVelocity(s) % (pathPts[i] - mb.getBodyOriginLocation(s));
+            vmax = std::max(vmax, v.norm()); armMax = std::max(armMax, pathPts[i].norm()); }
+        const double smooth = cable.getSmoothness(s);
+        // Bounds DERIVED from the smoothness the solver reports (theorems totalForce_eq_defects / unitPower_add_lengthDot_eq_defects:
+        // resultant force = sum of tangent defects, power + T*Ldot = T * sum defect.velocity; each defect <= sqrt2 * path error)
+        const double fB = 3.0 * nSeg * std::max(smooth, 1e-13) + 1e-12;
+        // a 180 degree cusp: the straight segment runs against the reported tangent
+        const bool cusp = minAlign < -0.9;
         if (cusp) { vh::D("span." + algTag + ".cusp@" + cuspAt); if (std::getenv("C45_DEBUG")) std::printf("# dbg cusp align=%g at %s items=%s\n", minAlign, cuspAt.c_str(), tag.c_str()); }
         const std::string key = cusp ? "span." + algTag + ".cusp@" + cuspAt : "span." + algTag;
+        if (std::getenv("C45_DEBUG")) std::printf("# dbg defect nSeg=%d smooth=%g defSum=%g fsum=%g msum=%g pw=%g vmax=%g\n", nSeg, smooth, defSum, fsum.norm() / T, msum.norm() / T, std::fabs(power + T * Ldot) / T, vmax);
+        // every reported tangent is aligned with its straight segment (first-class predicate; a cusp is its grossest violation)
+        vh::P("tangents_aligned_with_segments", key + ".align", 1 - minAlign, 1e-9);
         // --- predicates
         // (a) length = sum of straight and curved segment lengths
         double sumLen = 0; for (size_t i = 0; i + 1 < pathPts.size(); i += 2) sumLen += (pathPts[i + 1] - pathPts[i]).norm();
@@ -192,6 +224,7 @@ static int spanCase(vh::Rng& g, int caseNo, bool thorough) {
               ok = ok && cable.getSmoothness(s2) <= cable.getSmoothnessTolerance();
               CableSpanObstacleIndex oi(0); for (int k : itemKind) if (k == 1) { ok = ok && cable.isInContactWithObstacle(s2, oi) == cable.isInContactWithObstacle(s, oi); ++oi; } }
           double fd = (Lpm[0] - Lpm[1]) / (2 * h);
+          gFdTotal++; if (ok) gFdDone++;
           if (ok) vh::P("lengthdot_is_derivative", key + ".ldotfd", std::fabs(fd - Ldot), 2e-4 * (1 + std::fabs(Ldot)));
           else vh::D("span.fd.skipped(contact change or non-converged neighbour)"); }
         // (d) curved segments lie on their obstacle surfaces
@@ -201,28 +234,26 @@ static int spanCase(vh::Rng& g, int caseNo, bool thorough) {
                   cable.calcCurveSegmentResampledPoints(s, oi, 7, [&](Vec3 p) { worst = std::max(worst, std::fabs(surfFn(o, ~X_GS * p))); }); }
               ++oi; }
           if (!arcs.empty()) vh::P("curve_points_on_surface", key + ".onsurf", worst, 1e-7); }
-        // (e) straight segments do not penetrate the obstacles (interior samples; tangential contact at the ends)
-        { double worst = 0; int on = 0; std::string where;
+        // (e) straight segments do not penetrate the obstacles: closed-form line/quadric test for sphere, cylinder, ellipsoid
+        //     (minimum of the scaled radius along the segment), 23 interior samples for the torus
+        { double worstConvex = 0, worstTorus = 0; std::string where; int on = 0;
           CableSpanObstacleIndex oi(0);
-          for (const Obst& o : obst) { Transform X_GS = mob[o.body].getBodyTransform(s) * o.X_BS;
-              for (size_t i = 0; i + 1 < pathPts.size(); i += 2) for (int q = 1; q < 12; ++q) {
-                  Vec3 p = pathPts[i] + (pathPts[i + 1] - pathPts[i]) * (q / 12.0);
-                  double pen = -surfFn(o, ~X_GS * p);
-                  if (pen > worst) { worst = pen; where = std::string(typeName(o.type)) + "#" + std::to_string(on) + (cable.isInContactWithObstacle(s, oi) ? ".contact" : ".lifted") + ".seg" + std::to_string(i / 2) + ".q" + std::to_string(q); } }
+          for (const Obst& o : obst) { Transform X_GS = mob[o.body].getBodyTransform(s) * o.X_BS; if (o.type != 3) gSpanObstCases++;
+              for (size_t i = 0; i + 1 < pathPts.size(); i += 2) {
+                  Vec3 a = ~X_GS * pathPts[i], b = ~X_GS * pathPts[i + 1];
+                  if (o.type != 3) { double pen = segPenetrationConvex(o.type, o.dims, a, b);
+                      if (pen > worstConvex) { worstConvex = pen; where = std::string(typeName(o.type)) + "#" + std::to_string(on) + (cable.isInContactWithObstacle(s, oi) ? ".contact" : ".lifted") + ".seg" + std::to_string(i / 2); } }
+                  else for (int q = 1; q < 24; ++q) { double pen = -surfFn(o, a + (b - a) * (q / 24.0)); if (pen > worstTorus) worstTorus = pen; } }
               ++on; ++oi; }
-          if (worst > 1e-7) { std::printf("# dbg nopenetration %s worst=%g items=%s contacts=%s\n", where.c_str(), worst, tag.c_str(), contactTag.c_str());
-              if (std::getenv("C45_DEBUG")) { CableSpanObstacleIndex oj(0); for (const Obst& o : obst) { if (o.type == 3 && cable.isInContactWithObstacle(s, oj)) { Transform X_GS = mob[o.body].getBodyTransform(s) * o.X_BS;
-                  Transform XP = cable.calcCurveSegmentInitialFrenetFrame(s, oj), XQ = cable.calcCurveSegmentFinalFrenetFrame(s, oj);
-                  Vec3 P = ~X_GS * XP.p(), Q = ~X_GS * XQ.p(), tP = ~X_GS.R() * XP.x(), tQ = ~X_GS.R() * XQ.x();
-                  std::printf("# dbg torus R=%g r=%g P=(%g %g %g) tP=(%g %g %g) Q=(%g %g %g) tQ=(%g %g %g) arc=%g\n", o.dims[0], o.dims[1], P[0], P[1], P[2], tP[0], tP[1], tP[2], Q[0], Q[1], Q[2], tQ[0], tQ[1], tQ[2], cable.calcCurveSegmentArcLength(s, oj)); } ++oj; } } }
-          if (!obst.empty()) { // convex obstacles must pass; a torus is not convex (separate key)
-              bool torusWorst = where.rfind("torus", 0) == 0;
-              vh::P("straight_segments_outside_obstacles", torusWorst ? std::string("span.torus.nopenetration") : key + ".nopenetration", worst, 1e-7); } }
+          if (worstConvex > 1e-7) std::printf("# dbg nopenetration %s worst=%g items=%s contacts=%s\n", where.c_str(), worstConvex, tag.c_str(), contactTag.c_str());
+          bool anyConvex = false, anyTorus = false; for (const Obst& o : obst) { if (o.type == 3) anyTorus = true; else anyConvex = true; }
+          if (anyConvex) vh::P("straight_segments_outside_obstacles", key + ".nopenetration", worstConvex, 1e-7);
+          if (anyTorus) vh::P("straight_segments_outside_obstacles", "span.torus.nopenetration", worstTorus, 1e-7); }
         // (f) power = -tension * length rate
-        vh::P("power_eq_minus_tension_lengthdot", key + ".power", std::fabs(power + T * Ldot), 1e-7 * T * (1 + std::fabs(Ldot)));
+        vh::P("power_eq_minus_tension_lengthdot", key + ".power", std::fabs(power + T * Ldot) / T, fB * vmax + 1e-12 * (1 + std::fabs(Ldot)));
         // (g) third law: the applied body forces sum to zero (force and moment about the ground origin)
-        vh::P("forces_sum_to_zero", key + ".fsum", fsum.norm() / T, 1e-8);
-        vh::P("moments_sum_to_zero", key + ".msum", msum.norm() / T, 1e-7);
+        vh::P("forces_sum_to_zero", key + ".fsum", fsum.norm() / T, fB);
+        vh::P("moments_sum_to_zero", key + ".msum", msum.norm() / T, fB * (1 + armMax));
         // (h) a slack cable (negative tension) applies nothing
         { Vector_<SpatialVec> z(matter.getNumBodies(), SpatialVec(Vec3(0), Vec3(0))); cable.applyBodyForces(s, -1.0, z);
           double m = 0; for (int b = 0; b < z.size(); ++b) m = std::max(m, std::max(z[b][0].norm(), z[b][1].norm()));
@@ -300,14 +331,16 @@ static int pathCase(vh::Rng& g, bool withSurface) {
             Lprev = Lc;
             if (!settled) s.invalidateAllCacheAtOrAbove(Stage::Position);     // the cache entry keeps the last solution: next solve starts from it
         }
+        if (anySurface) gSurfTotal++;
         if (!settled) { vh::D(key + ".notConverged"); return 0; }
+        if (anySurface) gSurfConv++;
         { CoutCapture cap; system.realize(s, Stage::Dynamics); }
         double L = path.getCableLength(s), Ldot = path.getCableLengthDot(s);
         if (!std::isfinite(L) || !std::isfinite(Ldot)) { vh::D(key + ".nonfinite"); return 0; }
         const double T = g.range(0.5, 20);
         double power = path.calcCablePower(s, T);
         if (!anySurface) {
-            vh::Line in = vh::I("path"); in.d(T).i((long)pts.size());
+            vh::Line in = vh::I("path"); in.i(gSeed).i(gCase).d(T).i((long)pts.size());
             for (auto& bp : pts) { int b = bp.first; putV(in, mob[b].getBodyOriginLocation(s)); putV(in, mob[b].getBodyAngularVelocity(s)); putV(in, mob[b].getBodyOriginVelocity(s));
                                    putV(in, mob[b].findStationLocationInGround(s, bp.second)); }
             in.emit();
@@ -342,23 +375,43 @@ static int pathCase(vh::Rng& g, bool withSurface) {
     } catch (const std::exception& e) { vh::D(key + ".EXC"); return 0; }
 }
 
+static void oneCase(long long seed, long long k, bool thorough) {
+    gSeed = seed; gCase = k;
+    vh::Rng g((uint64_t)(seed * 7919 + 45) * 1000003ull + (uint64_t)k);      // independent stream per case: a case is (seed, k)
+    int stream = g.below(10);
+    if (stream < 7) spanCase(g, (int)k, thorough);
+    else if (stream < 9) pathCase(g, false);
+    else pathCase(g, true);
+}
+
+// replay RE-RUNS the implementation: every I record carries (seed, case index); the case is rebuilt from them
 static void replay() {
-    // records are self-contained model inputs (exported path data): echo them with the implementation output recomputed is not
-    // possible without the system, so replay re-emits the I line only when followed by its stored O line in the corpus file
-    static char buf[1 << 20];
-    while (std::fgets(buf, sizeof buf, stdin)) { if (buf[0] == 'I' || buf[0] == 'O' || buf[0] == 'T') std::fputs(buf, stdout); }
+    static char buf[1 << 20]; std::vector<std::pair<long long, long long> > done;
+    while (std::fgets(buf, sizeof buf, stdin)) {
+        std::istringstream is(buf); std::string kind, fn; long long seed, k; is >> kind >> fn >> seed >> k;
+        if (kind != "I" || !is || (fn != "span" && fn != "path")) continue;
+        if (std::find(done.begin(), done.end(), std::make_pair(seed, k)) != done.end()) continue;
+        done.push_back({seed, k});
+        oneCase(seed, k, false);
+    }
+}
+
+static void floorP(const char* what, long got, long total, double minShare) {
+    if (total < 15) return;
+    vh::I("floor").s(what).i(total).i(got).emit(); std::printf("O floor 1\n");
+    vh::P("share_of_cases_reaching_result_predicates", std::string("floor.") + what, minShare - (double)got / total, 0.0);
 }
 
 int main(int argc, char** argv) {
     vh::Args args(argc, argv);
     if (args.mode == "replay") { replay(); return 0; }
-    bool thorough = args.n > 500;
-    vh::Rng g(args.seed * 7919 + 45);
-    for (long k = 0; k < args.n; ++k) {
-        int stream = g.below(10);
-        if (stream < 7) spanCase(g, (int)k, thorough);
-        else if (stream < 9) pathCase(g, false);
-        else pathCase(g, true);
-    }
+    bool thorough = args.n > 2000;
+    for (long k = 0; k < args.n; ++k) oneCase((long long)args.seed, k, thorough);
+    // floors (measured shares on the clean tree in notes/C45.md; required: about half of them)
+    floorP("span.Scholz2015.converged", gSpanConv[0], gSpanTotal[0], 0.80);
+    floorP("span.MinimumLength.converged", gSpanConv[1], gSpanTotal[1], 0.80);
+    floorP("span.withContact", gSpanContact, gSpanConv[0] + gSpanConv[1], 0.30);
+    floorP("span.fdDone", gFdDone, gFdTotal, 0.80);
+    floorP("path.surface.converged", gSurfConv, gSurfTotal, 0.15);
     return 0;
 }
